@@ -7,12 +7,34 @@ COQ_DEPS = []
 PROFILES = ["debug"]
 CORR_IMPORT = "From RlibV Require Import C03.Model C03.Corr.\nOpen Scope Z_scope."
 AUDIT_IMPORT = ("From Coq Require Import ZArith List Bool.\nImport ListNotations.\n"
-                "From RlibV Require Import C03.Model C03.Corr C03.Properties.\nOpen Scope Z_scope.")
+                "From RlibV Require Import C03.Model C03.Corr C03.Proofs C03.ProofsInst C03.Properties.\nOpen Scope Z_scope.")
 EXPLAIN = "explain"
 CASE_TYPE = "case"
 AXIOM_ALLOW = []
 SHARD = 1500
-THEOREMS = []
+SEARCH_MAX = 3000      # size of the enlarged search after a model-only mismatch
+THEOREMS = [
+    ('c03_merge_rep',
+     'forall (T M V A : Type) (update : T -> option T -> option T -> T) (push : T -> option T -> option T -> T * option T * option T) (size : T -> Z) (modify : M -> T -> T) (elem : T -> V) (agg : T -> A) (act : M -> V -> V) (aggf : list V -> A) (Pending : T -> list M -> Prop), lawful update push size modify elem agg act aggf Pending -> forall (a b : tree) (xs ys : list V), Rep size elem agg act aggf Pending a xs -> Rep size elem agg act aggf Pending b ys -> Rep size elem agg act aggf Pending (merge update push a None b None) (xs ++ ys)'),
+    ('c03_split_at_rep',
+     'forall (T M V A : Type) (update : T -> option T -> option T -> T) (push : T -> option T -> option T -> T * option T * option T) (size : T -> Z) (modify : M -> T -> T) (elem : T -> V) (agg : T -> A) (act : M -> V -> V) (aggf : list V -> A) (Pending : T -> list M -> Prop), lawful update push size modify elem agg act aggf Pending -> forall (t : tree) (k : Z) (xs : list V) (a b : tree), Rep size elem agg act aggf Pending t xs -> split_at update push size t None k = (a, b) -> Rep size elem agg act aggf Pending a (firstn (Z.to_nat k) xs) /\\ Rep size elem agg act aggf Pending b (skipn (Z.to_nat k) xs) /\\ (len xs <= k -> Rep size elem agg act aggf Pending a xs /\\ b = E)'),
+    ('c03_split_by_rep',
+     'forall (T M V A : Type) (update : T -> option T -> option T -> T) (push : T -> option T -> option T -> T * option T * option T) (size : T -> Z) (modify : M -> T -> T) (elem : T -> V) (agg : T -> A) (act : M -> V -> V) (aggf : list V -> A) (Pending : T -> list M -> Prop), lawful update push size modify elem agg act aggf Pending -> forall (q : V -> bool) (t : tree) (xs : list V) (a b : tree), Rep size elem agg act aggf Pending t xs -> monotone_on q xs = true -> split_by update push (fun x => q (elem x)) t None = (a, b) -> Rep size elem agg act aggf Pending a (take_while q xs) /\\ Rep size elem agg act aggf Pending b (drop_while q xs)'),
+    ('c03_insert_at',
+     'forall (T M V A : Type) (update : T -> option T -> option T -> T) (push : T -> option T -> option T -> T * option T * option T) (size : T -> Z) (modify : M -> T -> T) (elem : T -> V) (agg : T -> A) (act : M -> V -> V) (aggf : list V -> A) (Pending : T -> list M -> Prop), lawful update push size modify elem agg act aggf Pending -> forall (t : tree) (k : Z) (x : T) (p : Z) (xs : list V), Rep size elem agg act aggf Pending t xs -> Fresh size elem agg aggf Pending x -> Rep size elem agg act aggf Pending (insert_at update push size t k x p) (firstn (Z.to_nat k) xs ++ elem x :: skipn (Z.to_nat k) xs)'),
+    ('c03_remove_at',
+     "forall (T M V A : Type) (update : T -> option T -> option T -> T) (push : T -> option T -> option T -> T * option T * option T) (size : T -> Z) (modify : M -> T -> T) (elem : T -> V) (agg : T -> A) (act : M -> V -> V) (aggf : list V -> A) (Pending : T -> list M -> Prop), lawful update push size modify elem agg act aggf Pending -> forall (t : tree) (k : Z) (xs : list V) (t' : tree) (res : option T), Rep size elem agg act aggf Pending t xs -> remove_at update push size t k = (t', res) -> Rep size elem agg act aggf Pending t' (firstn (Z.to_nat k) xs ++ skipn (S (Z.to_nat k)) xs) /\\ option_map elem res = nth_error xs (Z.to_nat k)"),
+    ('c03_first_last_collect_size',
+     "forall (T M V A : Type) (update : T -> option T -> option T -> T) (push : T -> option T -> option T -> T * option T * option T) (size : T -> Z) (modify : M -> T -> T) (elem : T -> V) (agg : T -> A) (act : M -> V -> V) (aggf : list V -> A) (Pending : T -> list M -> Prop), lawful update push size modify elem agg act aggf Pending -> forall (t : tree) (xs : list V), Rep size elem agg act aggf Pending t xs -> (forall t' res, first push t None = (t', res) -> Rep size elem agg act aggf Pending t' xs /\\ option_map elem res = hd_error xs) /\\ (forall t' res, last push t None = (t', res) -> Rep size elem agg act aggf Pending t' xs /\\ option_map elem res = last_error xs) /\\ (forall t' ys, collect push t None = (t', ys) -> Rep size elem agg act aggf Pending t' xs /\\ map elem ys = xs) /\\ tsize size t = len xs /\\ option_map agg (item t) = match xs with [] => None | _ => Some (aggf xs) end"),
+    ('c03_modify_root',
+     'forall (T M V A : Type) (update : T -> option T -> option T -> T) (push : T -> option T -> option T -> T * option T * option T) (size : T -> Z) (modify : M -> T -> T) (elem : T -> V) (agg : T -> A) (act : M -> V -> V) (aggf : list V -> A) (Pending : T -> list M -> Prop), lawful update push size modify elem agg act aggf Pending -> forall (m : M) (t : tree) (xs : list V), Rep size elem agg act aggf Pending t xs -> Rep size elem agg act aggf Pending (modify_root modify m t) (map (act m) xs)'),
+    ('c03_history',
+     'forall (T M V A : Type) (update : T -> option T -> option T -> T) (push : T -> option T -> option T -> T * option T * option T) (size : T -> Z) (modify : M -> T -> T) (elem : T -> V) (agg : T -> A) (act : M -> V -> V) (aggf : list V -> A) (Pending : T -> list M -> Prop), lawful update push size modify elem agg act aggf Pending -> forall (ps : list Z) (ops : list op) (sst : list (list V)) (outs : list output), Forall (op_fresh size elem agg aggf Pending) ops -> srun elem act aggf [] ops = Some (sst, outs) -> run_outputs update push size modify elem agg ps ops = outs /\\ Forall2 (Rep size elem agg act aggf Pending) (run_final update push size modify elem agg ps ops) sst'),
+    ('c03_isz_lawful',
+     'lawful isz_update isz_push isize isz_modify ix ism Z.add zsum isz_pending'),
+    ('c03_iaa_lawful',
+     'lawful iaa_update iaa_push asize iaa_modify ax asm amod_act zsum iaa_pending'),
+]
 RULE = ("multi-treap op histories (1-45 ops, up to 6 live treaps, up to ~35 elements) over two item kinds (lazy add + sum; "
         "assign-or-add + sum, non-commuting modifications); priorities injected through the public field: random 32-bit, "
         "tiny range (ties), all equal, increasing, decreasing, or the generator's own draws (real insert_at, stream predicted "
